@@ -30,7 +30,7 @@ MC = {
     "C05": [("MC_HostFs", "MC_HostFs_quick.cfg", "MC_HostFs_thorough.cfg"), ("MC_Passthrough", "MC_Pt_mirror_quick.cfg", "MC_Pt_mirror_thorough.cfg"),
             ("MC_Passthrough", None, "MC_Pt_mirror_ifh.cfg"), ("MC_Passthrough", None, "MC_Pt_mirror_noopen.cfg")],
     "C06": [("MC_Passthrough", "MC_Pt_contained_quick.cfg", "MC_Pt_contained_thorough.cfg")],
-    "C18": [("MC_Passthrough", "MC_Pt_sealed_quick.cfg", "MC_Pt_sealed_thorough.cfg"), ("MC_Passthrough", None, "MC_Pt_sealed_noopen.cfg")],
+    "C18": [("MC_Passthrough", "MC_Pt_sealed_quick.cfg", "MC_Pt_sealed_thorough.cfg"), ("MC_Passthrough", "MC_Pt_sealed_noopen_quick.cfg", "MC_Pt_sealed_noopen.cfg")],
 }
 # the same I-level model with the known findings NOT excused: TLC must derive them (binding of the MC side)
 MC_NOTAINT = {"C05": ("MC_Pt_mirror_notaint.cfg", "MirrorOK"), "C18": ("MC_Pt_sealed_notaint.cfg", "Sealed")}
@@ -39,6 +39,7 @@ MC_NOTAINT = {"C05": ("MC_Pt_mirror_notaint.cfg", "MirrorOK"), "C18": ("MC_Pt_se
 def run_mc(ctx, pid):
     """Model-check the I-level spec against the A-level invariants; returns scenarios exported by TLC."""
     scen = []
+    acts = {}
     for module, qcfg, tcfg in MC[pid]:
         cfg = qcfg if ctx.quick else tcfg
         if cfg is None:
@@ -58,19 +59,35 @@ def run_mc(ctx, pid):
             except Exception:
                 pass
         if module == "MC_Passthrough":
-            acts = {}
             for sc in got:
                 for q in sc["ops"]:
                     acts[(q["op"], q.get("st") == "OK")] = acts.get((q["op"], q.get("st") == "OK"), 0) + 1
-            need = {"c05": ["lookup", "forget", "mkdir", "mknod", "symlink", "create", "link", "unlink", "rmdir", "rename", "open", "release", "read", "write", "setattr"],
-                    "c06": ["lookup", "mkdir", "symlink", "create", "link", "unlink", "rename", "open", "read"],
-                    "c18": ["lookup", "create", "open", "release", "read", "write", "fallocate", "setattr"]}[got[0]["mode"] if got else "c05"]
-            never = [o for o in need if not acts.get((o, True))]
-            if never or not got:
-                raise C.ToolError("vacuity gate: actions never taken successfully in %s/%s: %s" % (module, cfg, never))
-            ctx.extra.setdefault("action_coverage", {})[cfg] = {"%s/%s" % (k[0], "ok" if k[1] else "fail"): v for k, v in sorted(acts.items())}
+            if not got:
+                raise C.ToolError("vacuity gate: %s/%s exported no history" % (module, cfg))
         scen += got
         ctx.extra.setdefault("mc_taint", {})[cfg] = sorted(set(re.findall(r'<<"TAINT", "([^"]+)">>', r["output"])))
+    # vacuity gate over all I-level configurations of this property. Computed from the exported histories (one per
+    # distinct terminal state), hence only for requests whose success changes the state.
+    need = {"C05": ["lookup", "forget", "mkdir", "mknod", "symlink", "create", "link", "unlink", "rmdir", "rename", "open", "write"],
+            "C06": ["lookup", "mkdir", "symlink", "create", "link", "unlink", "rename", "open"],
+            "C18": ["lookup", "create", "open", "write", "fallocate"]}[pid]
+    never = [o for o in need if not acts.get((o, True))]
+    if never:
+        raise C.ToolError("vacuity gate: actions never taken successfully in the I-level configurations of %s: %s" % (pid, never))
+    ctx.extra["action_coverage"] = {"%s/%s" % (k[0], "ok" if k[1] else "fail"): v for k, v in sorted(acts.items())}
+    if pid in MC_NOTAINT:
+        cfg, inv = MC_NOTAINT[pid]
+        r = C.tlc_mc(ctx, "MC_Passthrough", cfg=cfg, workers=8, timeout=900, cont=True, coverage=False, expect_violation=True)
+        if inv not in r["violated"]:
+            raise C.ToolError("MC binding: with the known findings not excused TLC must violate %s in %s (got %s)" % (inv, cfg, r["violated"]))
+        ctx.extra.setdefault("binding_demo", []).append({"corruption": "known-finding taint switched off in %s" % cfg, "rejected_with": r["violated"]})
+    # replay a seeded sample of the exported histories on the real code
+    import random
+    rnd = random.Random(ctx.seed)
+    k = 120 if ctx.quick else 2000
+    ctx.extra["tlc_histories_exported"] = len(scen)
+    if len(scen) > k:
+        scen = rnd.sample(scen, k)
     return scen
 
 
@@ -95,8 +112,12 @@ def run_traces(ctx, pid, mode, nseg, length, chunks, scen):
             sf = ctx.path("scen.ndjson")
             C.write_ndjson(sf, scen)
             args.append(sf)
+        import time
+        t0 = time.time()
         C.run_bin(bindir, "pttree", args, env={"VERIF_SEED": ctx.seed * 1000 + ch}, timeout=1500)
+        t1 = time.time()
         res = C.tlc_trace(ctx, "Trace_Passthrough", trace, timeout=2400, xmx="10g")
+        C.log("chunk %d: harness %.1fs, trace validation %.1fs (%d bytes)" % (ch, t1 - t0, time.time() - t1, os.path.getsize(trace)))
         if not res["accepted"]:
             raise C.ToolError("pttree trace not consumed: %s" % res["stuck"])
         rows = C.read_ndjson(trace)
@@ -157,14 +178,8 @@ def coverage(ctx, pid, all_rows):
 def binding(ctx, pid, all_rows, mutate, want):
     trace, rows = all_rows[0]
     # first segments only (the demo is about binding, not coverage)
-    cut = []
-    segs = set()
-    for r in rows:
-        if r.get("e") in ("Reset", "ResetGate"):
-            if len(segs) >= 6 and r.get("e") == "Reset":
-                break
-            segs.add(r.get("seg"))
-        cut.append(json.loads(json.dumps(r)))
+    rand = [r["seg"] for r in rows if r.get("e") == "Reset" and r.get("src") == "rand"][:8]
+    cut = [json.loads(json.dumps(r)) for r in rows if r.get("seg") in rand]
     what = mutate(cut)
     if not what:
         raise C.ToolError("binding demo: nothing to corrupt in the first segments")
